@@ -32,10 +32,21 @@ RANGES = [
 
 
 class StrTranslator(Translator):
-    """py2v plus the two method calls that occur in String.midset's arithmetic."""
+    """py2v plus the two method calls that occur in String.midset's arithmetic, and the two readings of the free
+    space (before / after the garbage collection) in DataSegment.check_free."""
+    collected = False
+
+    def hook_stmt(self, s, rest, env, ctx, k):
+        if isinstance(s, ast.Expr) and isinstance(s.value, ast.Call) and \
+                self.dotted(s.value.func) == 'self._collect_garbage' and not s.value.args:
+            self.collected = True
+            return self.block(rest, env, ctx, k)
+        return None
 
     def hook_call(self, node, env):
         f = self.dotted(node.func) if isinstance(node.func, (ast.Attribute, ast.Name)) else None
+        if f == 'self._get_free' and not node.args and 'self.free_before' in env:
+            return env['self.free_after'] if self.collected else env['self.free_before']
         if f == 'val.length' and not node.args and 'val_length' in env:
             return env['val_length']
         if f == 'self.length' and not node.args and 'self_length' in env:
@@ -73,7 +84,7 @@ def generate(repo):
     }
     errs = read_errors(repo)
     out = []
-    for name in ('IFC', 'OVERFLOW', 'STRING_TOO_LONG', 'TYPE_MISMATCH'):
+    for name in ('IFC', 'OVERFLOW', 'STRING_TOO_LONG', 'TYPE_MISMATCH', 'OUT_OF_STRING_SPACE'):
         if name not in errs:
             raise Refuse('error.%s not found' % name)
         out.append('Definition strfn_%s : Z := %s.' % (name, zlit(errs[name])))
@@ -123,4 +134,28 @@ def generate(repo):
                stmts=(r'^offset = start - 1', r'^if offset \+ num > length'), ret=['offset', 'num'])
     t.function('StringSpace.store', coqname='strfn_store_check', param_types={'in_str': 'list Z'},
                stmts=(r'^length = len\(in_str\)', r'^if length > '), ret=['length'])
-    return HEADER + '\n'.join(out) + '\n' + '\n'.join(t.out) + '\n'
+    # StringSpace.store: the 255-byte limit is tested BEFORE string space is reserved (check_free may collect
+    # garbage and raise Out of string space), and the reservation raises OUT_OF_STRING_SPACE
+    store = mods['strings'].find('StringSpace.store')
+    i_limit = i_free = None
+    for i, st in enumerate(store.body):
+        src = ast.unparse(st)
+        if isinstance(st, ast.If) and ast.unparse(st.test) == 'length > 255' and 'STRING_TOO_LONG' in src \
+                and isinstance(st.body[0], ast.Raise) and i_limit is None:
+            i_limit = i
+        if 'check_free(' in src and i_free is None:
+            i_free = i
+            if 'self._memory.check_free(length, error.OUT_OF_STRING_SPACE)' not in src:
+                raise Refuse('StringSpace.store: reservation is no longer check_free(length, OUT_OF_STRING_SPACE)')
+    if i_limit is None or i_free is None or not i_limit < i_free:
+        raise Refuse('StringSpace.store: the length > 255 test no longer precedes the free-space reservation')
+    t.out.append('(* StringSpace.store: statement %d (limit test) precedes statement %d (check_free) *)'
+                 % (i_limit, i_free))
+    # DataSegment.check_free: free space read, garbage collected, free space read again
+    tm = StrTranslator(mods['memory'], prefix='strfn_', errors=errs)
+    tm.function('DataSegment.check_free', coqname='strfn_check_free',
+                param_types={'size': 'Z', 'err': 'Z'}, state=['self.free_before', 'self.free_after'],
+                force_monadic=True)
+    if not tm.collected:
+        raise Refuse('DataSegment.check_free no longer collects garbage between the two free-space tests')
+    return HEADER + '\n'.join(out) + '\n' + '\n'.join(t.out) + '\n' + '\n'.join(tm.out) + '\n'
